@@ -1341,7 +1341,14 @@ class PlainQuantity(Generic[MagnitudeT], PrettyIPython, SharedRegistryObject):
             return bool_result(False)
 
         # TODO: this might be expensive. Do we even need it?
-        if eq(self._magnitude, 0, True) and eq(other._magnitude, 0, True):
+        # Zero is the same physical quantity in every unit of a dimension only for
+        # multiplicative units: 0 degC is not 0 kelvin.
+        if (
+            self._is_multiplicative
+            and other._is_multiplicative
+            and eq(self._magnitude, 0, True)
+            and eq(other._magnitude, 0, True)
+        ):
             return bool_result(self.dimensionality == other.dimensionality)
 
         if self._units == other._units:
